@@ -1,6 +1,8 @@
 package main
 
 import (
+	"os/exec"
+	"context"
 	"encoding/json"
 	"flag"
 	"fmt"
@@ -34,6 +36,14 @@ type Finding struct {
 	What       string `json:"what"`
 	Status     string `json:"status"` // open | fixed
 	Commit     string `json:"commit,omitempty"`
+	// A finding that no obligation of the machinery decides is identified by a
+	// reproduction instead: an in-package test (Replay, injected with
+	// go test -overlay into package Pkg, run with -run Run) that FAILS while
+	// the defect is present. The check runs it on every run: the finding is
+	// reported while the test fails and silently dropped once it passes.
+	Replay string `json:"replay,omitempty"`
+	Pkg    string `json:"pkg,omitempty"`
+	Run    string `json:"run,omitempty"`
 }
 
 type KnownFindings struct {
@@ -300,6 +310,19 @@ func cmdCheck(args []string) {
 	known := 0
 	undecided := 0
 	replayDir := filepath.Join(vd, "replays", *prop)
+	for i := range kf.Findings {
+		f := &kf.Findings[i]
+		if f.Property != *prop || f.Status != "open" || f.Replay == "" || f.Obligation != "" {
+			continue
+		}
+		still, out := replayFinding(vd, *repo, f)
+		if still {
+			fmt.Printf("KNOWN-FINDING: property=%s %s (reproduced on this tree by %s): %s\n", *prop, f.Run, f.Replay, f.What)
+			known++
+		} else {
+			notes = append(notes, "known finding "+f.Run+" is no longer reproduced by "+f.Replay+": "+out)
+		}
+	}
 	for _, f := range fails {
 		if kfm := matchFinding(kf.Findings, *prop, f.name); kfm != nil {
 			fmt.Printf("KNOWN-FINDING: property=%s %s: %s\n", *prop, f.name, kfm.What)
@@ -493,3 +516,36 @@ func maxInt(a, b int) int {
 }
 
 func round2(f float64) float64 { return float64(int(f*100+0.5)) / 100 }
+
+
+// replayFinding runs the reproduction of a known finding against the real
+// code of the current tree: true while the test fails (the defect is present).
+func replayFinding(vd, repo string, f *Finding) (bool, string) {
+	src := filepath.Join(vd, f.Replay)
+	pkgDir := filepath.Join(repo, strings.TrimPrefix(f.Pkg, "./"))
+	ov := fmt.Sprintf(`{"Replace":{%q:%q}}`, filepath.Join(pkgDir, "zz_verif_known_finding_test.go"), src)
+	tmp, err := os.CreateTemp("", "govc-ov-*.json")
+	if err != nil {
+		return false, err.Error()
+	}
+	defer os.Remove(tmp.Name())
+	tmp.WriteString(ov)
+	tmp.Close()
+	ctx, cancel := context.WithTimeout(context.Background(), 5*time.Minute)
+	defer cancel()
+	cmd := exec.CommandContext(ctx, "go", "test", "-mod=mod", "-overlay", tmp.Name(), "-vet=off", "-count=1", "-timeout", "240s", "-run", f.Run, ".")
+	cmd.Dir = pkgDir
+	cmd.Env = append(os.Environ(), "GOFLAGS=-mod=mod", "GOPROXY=off")
+	out, _ := cmd.CombinedOutput()
+	o := string(out)
+	if strings.Contains(o, "--- FAIL") {
+		return true, ""
+	}
+	if strings.Contains(o, "\nok ") || strings.HasPrefix(o, "ok ") {
+		return false, "test passes"
+	}
+	if len(o) > 300 {
+		o = o[len(o)-300:]
+	}
+	return false, "test did not run: " + o
+}
